@@ -346,7 +346,7 @@ def fr_list(a):
     return [frac(x) for x in np.asarray(a, dtype=float)]
 
 
-def oracle(impl, op, before, outc):
+def oracle(impl, op, before, outc, fnspecs={}):
     """Judge one executed step against the property text, independently of the Coq model.
     before: dict with snapshots taken before the op.  Returns list of complaint strings."""
     bad = []
@@ -361,6 +361,29 @@ def oracle(impl, op, before, outc):
         except Exception as e:
             if impl.cls_of(o)[0] != 2 or len(o.times) >= 2:
                 bad.append("object %d: values cannot be read (%s)" % (i, type(e).__name__))
+    # a function-backed signal holds, at every sample, the sum over its components of factor * f(t - t0)
+    # (whatever its buffers are, as long as no filter is set): exact on the generated data
+    for i, o in enumerate(O):
+        if impl.cls_of(o)[0] != 2 or len(o.times) < 2 or not isinstance(o.times, np.ndarray):
+            continue
+        try:
+            specs = [(fnspecs.get(id(f)), frac(t0), frac(fac)) for f, t0, fac in zip(o._functions, o._t0s, o._factors)]
+            if any(sp is None for sp, _, _ in specs) or any(len(g) for g in o._filters):
+                continue
+            got = fr_list(o.values)
+        except Exception:
+            continue
+        want = []
+        for x in fr_list(o.times):
+            tot = Fraction(0)
+            for f, t0, fac in specs:
+                u = x - t0
+                g = u if f[0] == "affine" else (u * u if f[0] == "quad" else abs(u - Fraction(*f[3])))
+                tot += (Fraction(*f[1]) * g + Fraction(*f[2])) * fac
+            want.append(tot)
+        if got != want:
+            bad.append("function-backed object %d does not hold its function's values at its own sample times "
+                       "(first difference at sample %d)" % (i, [a != b for a, b in zip(got, want)].index(True) if len(got) == len(want) else -1))
     k = op["op"]
     new = O[outc[1]] if outc[0] == 0 else None
     # results share no mutable state with operands or arguments
@@ -458,15 +481,20 @@ def q_of(x):
 
 
 class Gen:
-    def __init__(self, rng, impl, max_ops, malformed=False):
+    def __init__(self, rng, impl, max_ops, malformed=False, bias=None):
         self.rng, self.impl, self.max_ops, self.malformed = rng, impl, max_ops, malformed
+        self.bias = bias      # "decimal": mostly decimal-step grids and function-backed signals on them
         self.fns = {}      # object index -> list of (fnspec, ) per component: tracked for the oracle
 
     def grid(self, kind=None):
         r = self.rng
-        kind = kind or r.choice(["small", "small", "small", "tiny", "huge", "neg", "irregular", "empty", "ns", "ns", "ns_ms"])
+        if kind is None and self.bias == "decimal" and r.random() < 0.8:
+            kind = "decimal"
+        kind = kind or r.choice(["small", "small", "small", "tiny", "huge", "neg", "irregular", "empty", "ns", "ns", "ns_ms", "decimal", "decimal"])
         if kind == "empty":
             return []
+        if kind == "decimal":
+            return self.decimal_grid()
         if kind in ("ns", "ns_ms"):
             # realistic sampling: dt = 2^-30 s (0.93 ns) or half / twice that, starting near 0 or near 1 ms
             n = r.choice([2, 3, 4, 5, 6, 8])
@@ -486,6 +514,39 @@ class Gen:
                 t += Fraction(r.choice([1, 2, 4, 8]), r.choice([1, 2, 4]))
             return ts
         return [start + i * dt for i in range(n)]
+
+    DEC_STEPS = [0.1, 0.2, 0.5, 0.05, 0.3, 1e-9, 1e-10, 2.5e-10]
+
+    def decimal_grid(self, dt=None, j0=None, n=None):
+        """a grid with a DECIMAL step, written the way users write them (np.linspace between round decimal
+        end points, start + dt*arange, np.arange): the samples are not exactly representable, buffer/dt quotients
+        round.  Returned as the exact rational values of the floats."""
+        r = self.rng
+        dt = dt if dt is not None else r.choice(self.DEC_STEPS)
+        j0 = j0 if j0 is not None else r.randint(-12, 6)
+        n = n if n is not None else r.choice([3, 5, 8, 12, 16])
+        a = float(np.round(j0 * dt, 14))
+        b = float(np.round((j0 + n - 1) * dt, 14))
+        how = r.choice(["linspace", "linspace", "arange_mul", "arange"])
+        if how == "linspace":
+            arr = np.linspace(a, b, n)
+        elif how == "arange_mul":
+            arr = a + dt * np.arange(n)
+        else:
+            arr = np.arange(a, b + dt / 2, dt)
+        return [frac(x) for x in arr]
+
+    def dec_ok(self, t):
+        """a (nearly) uniform increasing grid with at least two samples that is NOT one of the dyadic grids:
+        usable for FunctionSignals whose function is evaluated without rounding (a*t, a*|t| with a = +-2^k)"""
+        if len(t) < 2 or self.fun_ok(t):
+            return False
+        t = [float(x) for x in t]
+        dt = t[1] - t[0]
+        return dt > 0 and all(abs((b - a) - dt) <= 1e-6 * dt for a, b in zip(t, t[1:])) and max(abs(x) for x in t) < 1e6
+
+    def is_dec(self, o):
+        return self.is_fun(o) and isinstance(o.times, np.ndarray) and self.dec_ok(o.times)
 
     def perturbed(self, base):
         """a grid of the same length that differs MINUTELY from an existing one: one ulp in one sample, a tiny
@@ -584,8 +645,18 @@ class Gen:
         O, E = I.objs, I.ext
         if len(E) < 2 or (len(E) < 7 and r.random() < 0.12):
             kind = None
-            xs = self.grid(kind) if r.random() < 0.6 else self.values(r.choice([1, 2, 3, 4, 5, 6]))
-            if E and r.random() < 0.35:
+            xs = self.grid(kind) if r.random() < (0.9 if self.bias else 0.6) else self.values(r.choice([1, 2, 3, 4, 5, 6]))
+            decs = [np.asarray(o.times, dtype=float) for o in O if self.is_dec(o)] + [a for a in E if self.dec_ok(a)]
+            if decs and r.random() < 0.5:
+                # a window written independently of the source grid: same decimal step, start at a round decimal
+                # time inside / before / after the source span
+                src = r.choice(decs)
+                dtd = min(self.DEC_STEPS, key=lambda d: abs(d - (src[1] - src[0])))
+                j_src = int(round(src[0] / dtd))
+                k0 = r.randint(-3, max(1, len(src) - 3))
+                n2 = r.randint(2, max(3, len(src) - max(k0, 0) + r.choice([0, 0, 0, 2])))
+                xs = self.decimal_grid(dt=dtd, j0=j_src + k0, n=n2)
+            elif E and r.random() < 0.35:
                 # an almost-equal twin of a grid that is in use (or of any caller array)
                 used = [np.asarray(o.times, dtype=float) for o in O if isinstance(o.times, np.ndarray) and len(o.times)] or E
                 px = self.perturbed(r.choice(used))
@@ -595,6 +666,10 @@ class Gen:
         if len(O) < 2 or (len(O) < 9 and r.random() < 0.22):
             ta = r.randrange(len(E))
             c = r.choice([0, 0, 1, 2, 2])
+            if self.bias == "decimal":
+                decs = [a for a in range(len(E)) if self.dec_ok(E[a])]
+                if decs and r.random() < 0.7:
+                    c, ta = 2, r.choice(decs)
             op = {"op": "mk", "cls": c, "sub": r.random() < 0.2, "ta": ta, "va": r.randrange(len(E)),
                   "vt": r.choice([0, 0, 1, 1, 2, 3]), "vtform": r.choice(["enum", "int", "str", "none"]),
                   "aslist": r.random() < 0.15,
@@ -615,6 +690,9 @@ class Gen:
                 if frac(E[op["ta"]][1]) - frac(E[op["ta"]][0]) < Fraction(1, 64):
                     op["fn"][2] = q_of(0)      # tiny times: no constant term, values keep few bits
                     op["fn"][3] = q_of(0)
+            if c == 2 and self.dec_ok(E[op["ta"]]):
+                op["fn"] = [r.choice(["affine", "abs"]), q_of(r.choice([1, -1, 2, Fraction(1, 2)])), q_of(0), q_of(0)]
+                return op
             if c == 2 and not self.fun_ok(E[ta]):
                 oks = [a for a in range(len(E)) if self.fun_ok(E[a])]
                 if not oks:
@@ -628,17 +706,59 @@ class Gen:
         kinds = ["copy", "add", "add", "add", "radd", "mul", "rmul", "imul", "div", "idiv", "with_times", "with_times",
                  "shift", "settype", "setbuf", "pokearr", "poketimes", "pokevals", "addmatch", "addmatch", "addnear", "addnear"]
         k = r.choice(kinds)
+        if self.bias == "decimal" and r.random() < 0.5:
+            fd = [j for j, p in enumerate(O) if self.is_dec(p)]
+            if fd:
+                i = r.choice(fd)
+                o = O[i]
+                k = r.choice(["with_times", "with_times", "setbuf", "copy", "imul", "mul"])
         if len(O) >= 10 and k in ("copy", "add", "addmatch", "addnear", "mul", "rmul", "div", "with_times"):
             k = r.choice(["imul", "idiv", "shift", "settype", "pokearr", "poketimes", "pokevals", "radd", "setbuf"])
         qform = r.choice(["float", "int", "np"])
+        dec = self.is_dec(o)
+        if dec and k in ("mul", "rmul", "imul", "div", "idiv"):
+            # powers of two only: every value stays the exactly scaled float
+            return {"op": k, "i": i, "q": q_of(r.choice([Fraction(2), Fraction(-1), Fraction(1, 2), Fraction(4), Fraction(1), Fraction(-2)])), "qform": qform}
+        if dec and k == "shift":
+            return {"op": "shift", "i": i, "q": q_of(0), "qform": qform}
+        if dec and k == "setbuf":
+            dtf = float(o.times[1] - o.times[0])
+            return {"op": "setbuf", "i": i, "lead": q_of(frac(r.choice([0, 1, 3, 5, 10]) * dtf)), "trail": q_of(frac(r.choice([0, 2, 3, 6]) * dtf))}
+        if dec and k == "with_times":
+            dto = float(o.times[1] - o.times[0])
+            cands = []
+            for a in range(len(E)):
+                if not self.dec_ok(E[a]) or abs((E[a][1] - E[a][0]) - dto) > 1e-6 * dto:
+                    continue
+                if abs(E[a][0] - o.times[0]) > 60 * dto or abs(E[a][-1] - o.times[-1]) > 60 * dto:
+                    continue
+                if E[a][0] >= o.times[0] and E[a][-1] <= o.times[-1]:
+                    # buffers = float differences: keep only windows where they are the exact differences
+                    if frac(E[a][0] - o.times[0]) != frac(E[a][0]) - frac(o.times[0]) or \
+                            frac(o.times[-1] - E[a][-1]) != frac(o.times[-1]) - frac(E[a][-1]):
+                        continue
+                cands.append(a)
+            if not cands:
+                return None
+            return {"op": "with_times", "i": i, "ta": r.choice(cands), "aslist": r.random() < 0.15}
+        if k in ("add", "addmatch"):
+            # a sum involving a decimal-grid FunctionSignal on the same grid would add rounded numbers
+            pass
         if k == "copy":
             return {"op": "copy", "i": i}
+        def inexact_sum(a_, b_):
+            """both on the same grid, one a decimal-grid FunctionSignal, the other not empty: the float sum rounds"""
+            if not (len(a_.times) == len(b_.times) and np.array_equal(a_.times, b_.times)):
+                return False
+            return (self.is_dec(a_) and I.cls_of(b_)[0] != 1) or (self.is_dec(b_) and I.cls_of(a_)[0] != 1)
         if k == "add":
-            return {"op": "add", "i": i, "j": r.randrange(len(O))}
+            j = r.randrange(len(O))
+            return None if inexact_sum(o, O[j]) else {"op": "add", "i": i, "j": j}
         if k == "addmatch":
             # prefer a partner on the same grid so that additions are mostly accepted
-            same = [j for j, p in enumerate(O) if len(p.times) == len(o.times) and np.array_equal(p.times, o.times)]
-            return {"op": "add", "i": i, "j": r.choice(same)}
+            same = [j for j, p in enumerate(O) if len(p.times) == len(o.times) and np.array_equal(p.times, o.times)
+                    and not inexact_sum(o, p)]
+            return {"op": "add", "i": i, "j": r.choice(same)} if same else None
         if k == "addnear":
             # a partner whose grid differs minutely: must be refused, in either operand order
             nearj = [j for j, p in enumerate(O) if self.near(p.times, o.times)]
@@ -859,11 +979,11 @@ def snapshot(impl, gen):
     return snap
 
 
-def execute(ops_or_gen, rng=None, max_ops=30, malformed=False, fixed_ops=None):
+def execute(ops_or_gen, rng=None, max_ops=30, malformed=False, fixed_ops=None, bias=None):
     """Run a history on the implementation.  Either generate (fixed_ops None) or replay fixed_ops.
     Returns (ops, per-step [(outcode, observation)], oracle complaints [(step, text)])."""
     impl = Impl()
-    gen = Gen(rng, impl, max_ops, malformed) if fixed_ops is None else Gen(None, impl, 0)
+    gen = Gen(rng, impl, max_ops, malformed, bias) if fixed_ops is None else Gen(None, impl, 0)
     ops, steps, complaints = [], [], []
     tries = 0
     while (len(ops) < max_ops if fixed_ops is None else len(ops) < len(fixed_ops)):
@@ -891,7 +1011,7 @@ def execute(ops_or_gen, rng=None, max_ops=30, malformed=False, fixed_ops=None):
         steps.append((outc, obs))
         try:
             if all(all(f[0] is not None for f in fl) for fl in before["fns"] if fl):
-                for c in oracle(impl, op, before, outc):
+                for c in oracle(impl, op, before, outc, gen.fns):
                     complaints.append((len(ops) - 1, c))
         except Exception as e:   # an oracle crash must not hide a model comparison
             complaints.append((len(ops) - 1, "oracle raised %s: %s" % (type(e).__name__, e)))
@@ -932,7 +1052,7 @@ def key_of(ops, step):
     return "hist:" + ",".join(o["op"] for o in ops[:step + 1])[-160:]
 
 
-def shrink(ops, still_fails, budget=60):
+def shrink(ops, still_fails, budget=40):
     """drop ops while the failure persists (indices in later ops are renumbered implicitly by
     re-running: an op that refers to a missing object simply raises / is skipped, so we only keep a
     candidate when it still fails in the same way)"""
@@ -1070,9 +1190,11 @@ def run(ctx):
     ctx.oblige("corr:minutely-different-grids-refused", n_refused == 2 * len(near),
                "%d of %d sums over minutely different grids were refused" % (n_refused, 2 * len(near)))
     ctx.extra["near_equal_grid_pairs"] = {"histories": len(near), "refused_sums": n_refused, "expected_refused": 2 * len(near)}
-    n_rand = ctx.n(300, 5000)
+    n_rand = ctx.n(120, 4000)
     for n in range(n_rand):
-        o, st, comp = execute(None, rng=rng, max_ops=rng.choice([8, 15, 30, 30]), malformed=(n % 6 == 5))
+        biased = (n % 4 == 1)
+        o, st, comp = execute(None, rng=rng, max_ops=rng.choice([10, 18] if biased else [8, 15, 30, 30]), malformed=(n % 6 == 5),
+                              bias=("decimal" if biased else None))
         histories.append(("random", o, st, comp))
     # model side
     exprs = [coq_compact(h[1]) for h in histories]
@@ -1098,7 +1220,7 @@ def run(ctx):
             # enough witnesses recorded: only count the rest (keeps a failing run within the time budget)
             disagreements += 1 if d is not None else 0
             continue
-        if d is not None:
+        if d is not None and len(ctx.failures) < 2:
             # full trace for the report
             try:
                 full = model_trace(parse_coq(ctx.coq_eval_exprs(IMPORTS, [coq_history(ops)])[0]))
